@@ -17,6 +17,8 @@ pub(crate) mod topo;
 pub(crate) mod c01;
 #[path = "/verif/harness/d/c10.rs"]
 pub(crate) mod c10;
+#[path = "/verif/harness/d/c13.rs"]
+pub(crate) mod c13;
 
 use vcore::{BatchPlan, Check};
 
@@ -64,6 +66,7 @@ pub(crate) fn verif_main(args: &[String]) -> i32 {
     let c08 = c08::HoldTimers;
     let c01 = c01::Convergence;
     let c10 = c10::GrHelper;
-    let checks: Vec<&dyn Check> = vec![&c08, &c01, &c10];
+    let c13 = c13::RtrClient;
+    let checks: Vec<&dyn Check> = vec![&c08, &c01, &c10, &c13];
     vcore::main_with(&checks, &plan, args)
 }
